@@ -392,16 +392,27 @@ func (o *baseDynamicObject) checkDynamicObjectPropertyDescr(name fmt.Stringer, d
 	return true
 }
 
+// _define: a descriptor without a value keeps the value of an existing property and creates a new one as undefined.
+func (o *dynamicObject) _define(name string, val Value, throw bool) bool {
+	if val == nil {
+		if o.d.Has(name) {
+			return true
+		}
+		val = _undefined
+	}
+	return o._set(name, val, throw)
+}
+
 func (o *dynamicObject) defineOwnPropertyStr(name unistring.String, desc PropertyDescriptor, throw bool) bool {
 	if o.checkDynamicObjectPropertyDescr(name, desc, throw) {
-		return o._set(name.String(), desc.Value, throw)
+		return o._define(name.String(), desc.Value, throw)
 	}
 	return false
 }
 
 func (o *dynamicObject) defineOwnPropertyIdx(name valueInt, desc PropertyDescriptor, throw bool) bool {
 	if o.checkDynamicObjectPropertyDescr(name, desc, throw) {
-		return o._set(name.String(), desc.Value, throw)
+		return o._define(name.String(), desc.Value, throw)
 	}
 	return false
 }
@@ -692,7 +703,7 @@ func (a *dynamicArray) hasOwnPropertyIdx(v valueInt) bool {
 func (a *dynamicArray) defineOwnPropertyStr(name unistring.String, desc PropertyDescriptor, throw bool) bool {
 	if a.checkDynamicObjectPropertyDescr(name, desc, throw) {
 		if idx, ok := strToInt(name); ok {
-			return a._setIdx(idx, desc.Value, throw)
+			return a._defineIdx(idx, desc.Value, throw)
 		}
 		typeErrorResult(throw, "Cannot define property %q on a dynamic array", name.String())
 	}
@@ -701,9 +712,20 @@ func (a *dynamicArray) defineOwnPropertyStr(name unistring.String, desc Property
 
 func (a *dynamicArray) defineOwnPropertyIdx(name valueInt, desc PropertyDescriptor, throw bool) bool {
 	if a.checkDynamicObjectPropertyDescr(name, desc, throw) {
-		return a._setIdx(toIntStrict(int64(name)), desc.Value, throw)
+		return a._defineIdx(toIntStrict(int64(name)), desc.Value, throw)
 	}
 	return false
+}
+
+// _defineIdx: a descriptor without a value keeps the value of an existing element and creates a new one as undefined.
+func (a *dynamicArray) _defineIdx(idx int, val Value, throw bool) bool {
+	if val == nil {
+		if a._has(idx) {
+			return true
+		}
+		val = _undefined
+	}
+	return a._setIdx(idx, val, throw)
 }
 
 func (a *dynamicArray) _delete(idx int, throw bool) bool {
